@@ -466,6 +466,13 @@ def run(ctx: Ctx) -> Outcome:
             events.append({"ev": "accessor", "expect": show(expect), "got": "raised" if a == "raised" else show(a), "again": "raised" if b == "raised" else show(b)})
             meta.append({"p": fnname, "obj": n, "exc": exc or ""})
 
+    class _AttrBag(dict):
+        __getattr__ = dict.get
+
+    class _Proxy:
+        def __getattr__(self, name):
+            return lambda *a, **k: None
+
     class _K:
         __slots__ = ("a",)
         @property
@@ -480,7 +487,9 @@ def run(ctx: Ctx) -> Outcome:
     pool = {"str": "", "frozenset": frozenset(), "list": [], "dict": {}, "tuple_with_list": (1, [2]), "int": 1, "None": None, "set": set(),
             "bytearray": bytearray(), "slice": slice(1), "function": _K.m, "instance": _K(), "property": _K.__dict__["p"],
             "cached_property": _K.__dict__["cp"], "plain_function": _K.__dict__["m"], "classmethod": _K.__dict__["c"],
-            "staticmethod": _K.__dict__["s"], "slot_descriptor": _K.__dict__["a"], "class": _K, "date": datetime.date(2020, 1, 1)}
+            "staticmethod": _K.__dict__["s"], "slot_descriptor": _K.__dict__["a"], "class": _K, "date": datetime.date(2020, 1, 1),
+            # values whose attribute access never fails (a catch-all __getattr__): judged by their class, like the runtime does
+            "attr_bag": _AttrBag(a=1), "proxy": _Proxy()}
     for n, x in pool.items():
         for fnname, expect in (("ishashable", isinstance(x, cabc.Hashable)),
                                ("isproperty", isinstance(x, (property, functools.cached_property))),
